@@ -410,10 +410,40 @@ def check(run):
     return out, st
 
 
+def main_driver(ctx, case):
+    "the command-line driver renders the same record: an uninterrupted run carries no interruption mark and ends with the end of the count"
+    import os, io, tempfile, contextlib, importlib.util
+    from ..harness import REPO
+    spec = importlib.util.spec_from_file_location('Droop_cli_c18', os.path.join(REPO, 'Droop.py'))
+    cli = importlib.util.module_from_spec(spec)
+    spec.loader.exec_module(cli)
+    out = os.path.join(os.path.dirname(os.path.dirname(os.path.dirname(os.path.abspath(__file__)))), 'out')
+    fd, path = tempfile.mkstemp(suffix='.blt', dir=out)
+    try:
+        with os.fdopen(fd, 'w') as f:
+            f.write(case.blt)
+        opts = dict(case.opts, path=path, dump=True, json=True)
+        try:
+            with contextlib.redirect_stdout(io.StringIO()):
+                text = cli.main(opts)
+        except Exception as e:      # pylint: disable=broad-except
+            ctx.count('main_driver_raised:' + type(e).__name__)
+            return
+    finally:
+        os.unlink(path)
+    ctx.count('main_driver_runs')
+    if 'count interrupted' in text or 'terminated prematurely' in text:
+        ctx.violation('main-marks-uninterrupted-count', 'Droop.main marks an uninterrupted count as interrupted', case.replay_case())
+    elif case.run.report is not None and case.run.report not in text:
+        ctx.violation('main-report-differs', 'the report printed by Droop.main differs from Election.report() of the same count', case.replay_case())
+
+
 def shard(ctx):
     n_min = 60 if ctx.quick else 400
     for i, rng in ctx.cases(n_min, 10 ** 9):
         case = stream.make_case(ctx, rng, WEIGHTS, render=True)
+        if i % 50 == 7 and case.run.complete and case.run.other is None:
+            main_driver(ctx, case)
         if not stream.usable(ctx, case):
             continue
         vs, st = check(case.run)
